@@ -196,20 +196,23 @@ theorem retOp_slots {c : Cfg} {s s' : State} {t : Tid} (h : retOp c s t = some s
   · simp at h
   · simp only [Option.some.injEq] at h; subst h; rfl
 
-theorem slotsOK_init (c : Cfg) : SlotsOK c (State.init c) := by
-  refine ⟨by simp [State.init], fun k sl hk => ?_⟩
-  simp only [State.init] at hk
-  have : sl = {} := by
-    have := List.getElem?_replicate (n := c.cap) (a := ({} : Slot)) (i := k)
+theorem slotsOK_init (c : Cfg) (r0 : Nat) : SlotsOK c (State.initAt c r0) := by
+  refine ⟨by simp [State.initAt], fun k sl hk => ?_⟩
+  simp only [State.initAt] at hk
+  have : sl = { ver := Gen.Pages.pushVersionFactor * r0 } := by
+    have := List.getElem?_replicate (n := c.cap) (a := ({ ver := Gen.Pages.pushVersionFactor * r0 } : Slot)) (i := k)
     rw [this] at hk
     split at hk <;> simp_all
   subst this
-  exact ⟨by simp, by simp, by simp⟩
+  refine ⟨by simp, ?_, by simp⟩
+  intro _ hodd
+  simp only [Gen.Pages.pushVersionFactor] at hodd
+  omega
 
 /-- the slot invariant holds in every reachable state -/
 theorem reach_slotsOK {c : Cfg} {s : State} (h : Reach c s) : SlotsOK c s := by
   refine Reachable.invariant (SlotsOK c) ?_ ?_ s h
-  · intro s hs; subst hs; exact slotsOK_init c
+  · intro s hs; obtain ⟨r0, rfl⟩ := hs; exact slotsOK_init c r0
   · intro s s' hs hst
     cases hst with
     | thread t tok spur l ht h => exact stepThread_slotsOK h hs
